@@ -9,6 +9,7 @@ import LentilVerif.Lemmas.PlaneComplex
 import LentilVerif.Props.C09
 import LentilVerif.Props.C04
 import LentilVerif.Props.C07
+import LentilVerif.Lemmas.PlaneLoop
 /-! # C03 — splitting an aperture into segments never changes the result
 
 Property theorems only. `Gen.sliceOffset` is regenerated from lentil/helper.py on every run. -/
@@ -923,5 +924,48 @@ example :=
     (by rw [outExtent_mask]; decide) (by decide) (fun z => z * z) (by simp) 1 2 (by decide) (by decide)
 
 end interleaved_example
+
+/-! ## `Plane._slice`: the per-segment bounding slices are the regenerated `boundary_slice` (wave 12) -/
+section slices
+
+/-- **every per-segment slice of a constructed plane is `helper.boundary_slice` of that segment's mask** (about the
+*generated* `Gen.boundarySlice`, helper.py:27-62 read on every run, at the default `pad = (0, 0)` that `_plane_slice` uses):
+for a plane whose mask `_plane_slice` accepted (`mkMask … = some`), the slice `plane._slice[n]` of every segment is
+`np.s_[rmin:rmax+1, cmin:cmax+1]` computed by the source's clamping arithmetic from the first/last row and column
+holding a set mask entry (what `lentil.util.boundary` returns), and the phasor of that segment sits at
+`slice_offset(s, self.shape)` of exactly that slice (generated `Gen.planeLoopOffset` of `Plane.multiply`). A change of
+the `+1`, of the clamping `min`/`max`, of the axis each bound is clamped against, or of the arguments handed to
+`slice_offset` breaks this proof. -/
+theorem segment_slices_are_boundary_slices (s0 s1 : Int) (ms : List (Int → Int → Bool)) (l : List Seg)
+    (h : mkMask s0 s1 ms = some (.segs s0 s1 l)) (g : Seg) (hg : g ∈ l) :
+    ∃ rmin rmax cmin cmax : Nat,
+      firstTrueIdx (fun i => anyBelowIdx (fun j => g.m i j) s1.toNat) s0.toNat = some rmin ∧
+      lastTrueIdx (fun i => anyBelowIdx (fun j => g.m i j) s1.toNat) s0.toNat = some rmax ∧
+      firstTrueIdx (fun j => anyBelowIdx (fun i => g.m i j) s0.toNat) s1.toNat = some cmin ∧
+      lastTrueIdx (fun j => anyBelowIdx (fun i => g.m i j) s0.toNat) s1.toNat = some cmax ∧
+      Gen.boundarySlice rmin rmax cmin cmax s0 s1 0 0 = ((g.s.r0, g.s.r1), (g.s.c0, g.s.c1)) ∧
+      ∀ {K R : Type} [Zero K] [Mul K] (ph : R → K) (amp : Attr K) (opd : Attr R),
+        ((segPhasor ph amp opd s0 s1 g).o0, (segPhasor ph amp opd s0 s1 g).o1)
+          = Gen.planeLoopOffset (Gen.boundarySlice rmin rmax cmin cmax s0 s1 0 0).1.1 (Gen.boundarySlice rmin rmax cmin cmax s0 s1 0 0).1.2
+              (Gen.boundarySlice rmin rmax cmin cmax s0 s1 0 0).2.1 (Gen.boundarySlice rmin rmax cmin cmax s0 s1 0 0).2.2 s0 s1 := by
+  unfold mkMask at h
+  cases hm : ms.mapM (fun m => (bboxSlice s0 s1 m).map fun s => (⟨m, s⟩ : Seg)) with
+  | none => simp [hm] at h
+  | some l' =>
+    rw [hm] at h
+    simp only [Option.map_some, Option.some.injEq, MaskM.segs.injEq, true_and] at h
+    subst h
+    obtain ⟨rmin, rmax, cmin, cmax, h1, h2, h3, h4, hb⟩ := bboxSlice_eq_gen s0 s1 g.m g.s (mkMask_bbox s0 s1 ms l' hm g hg)
+    refine ⟨rmin, rmax, cmin, cmax, h1, h2, h3, h4, hb, ?_⟩
+    intro K R _ _ ph amp opd
+    rw [hb]
+    rfl
+
+/-- non-vacuity: a 4×5 mask with set entries at (1,1) and (2,3): `_plane_slice` accepts it, the slice is `[1:3, 1:4]` -/
+example : ∃ g, mkMask 4 5 [fun i j => decide ((i = 1 ∧ j = 1) ∨ (i = 2 ∧ j = 3))] = some (.segs 4 5 [g])
+    ∧ g.s = ⟨1, 3, 1, 4⟩ ∧ Gen.boundarySlice 1 2 1 3 4 5 0 0 = ((1, 3), (1, 4)) :=
+  ⟨⟨fun i j => decide ((i = 1 ∧ j = 1) ∨ (i = 2 ∧ j = 3)), ⟨1, 3, 1, 4⟩⟩, by rfl, rfl, by decide⟩
+
+end slices
 
 end Lentil.C03
